@@ -149,7 +149,7 @@ pub fn law(a: &[u8], sep: &[u8], b: &[u8], rep: &mut Reporter, case_idx: u64) {
 }
 
 fn hostile_piece(rng: &mut Rng) -> Vec<u8> {
-    match rng.below(12) {
+    match rng.below(13) {
         0 => random_bytes(rng, 40),
         1 | 2 => token_soup(rng, 14),
         3 => {
@@ -194,7 +194,12 @@ fn hostile_piece(rng: &mut Rng) -> Vec<u8> {
             let t = *rng.pick(&["", "\n", "\r\n", "\n\n", "\r", "\r\n\r\n"]);
             format!("{l}{t}").into_bytes()
         }
-        _ => Vec::new(),
+        _ => {
+            // bytes that a "helpful" reader might treat specially at the start of the input only
+            let mut v: Vec<u8> = rng.pick(&[b"\xEF\xBB\xBF".as_slice(), b"\xFF\xFE", b"\xEF\xBB\xBF\xEF\xBB\xBF", b"\0", b"\x1a", b""]).to_vec();
+            v.extend_from_slice(*rng.pick(&[b"b.B -> b:\n".as_slice(), b"# k: v\n", b"", b"    void f() -> a\n", b"x"]));
+            v
+        }
     }
 }
 
@@ -232,6 +237,9 @@ const PROBES: &[&str] = &[
     "\"}",
     "\"}\nq.R -> s:\n",
     "x\"}\n",
+    "\u{feff}b.B -> b:\n",
+    "\u{feff}# k: v",
+    "\u{feff}",
 ];
 
 fn exhaustive(ctx: &Ctx, rep: &mut Reporter, max_len: u32) {
